@@ -201,6 +201,9 @@ def gen_segment_line(rng, lib, ec, sname=None, messy=True):
             if (rep_ok or messy) and rng.random() < .25:
                 nrep = rng.randint(2, 3)
             reps = [gen_ref(rng, row[1], 0, ec, messy) for _ in range(nrep)]
+            if nrep >= 2 and rng.random() < .25:
+                # an empty repetition that is NOT the last one is legitimate content (A~~B, ~B)
+                reps.insert(rng.randint(0, len(reps) - 1), '')
             fs.append(ec['REPETITION'].join(reps))
         elif i >= n:
             if n == 0:      # Z-segment: every field is a varies field
